@@ -300,15 +300,17 @@ func runOne(t *testing.T, rig Rig, prop, tier string, tape *Tape, withLog bool) 
 // bubble (itself included) from a full stack dump. runtime.NumGoroutine is
 // not usable for this: it also counts goroutines of frozen bubbles and ones
 // that are just exiting.
+var stackBuf = make([]byte, 1<<18)
+
 func bubbleGoroutines() int {
-	buf := make([]byte, 1<<20)
+	var buf []byte
 	for {
-		n := runtime.Stack(buf, true)
-		if n < len(buf) {
-			buf = buf[:n]
+		n := runtime.Stack(stackBuf, true)
+		if n < len(stackBuf) {
+			buf = stackBuf[:n]
 			break
 		}
-		buf = make([]byte, 2*len(buf))
+		stackBuf = make([]byte, 2*len(stackBuf))
 	}
 	s := string(buf)
 	// first header is the current goroutine: "goroutine 7 [running, synctest bubble 3]:"
